@@ -143,3 +143,11 @@ Proof.
   - apply from_gcs_dist_R; exact Hc.
   - apply to_gcs_dist_R; exact Hr.
 Qed.
+
+(* ---- one frame broadcast to every point = one frame per point with equal frames (every Num instance) --- *)
+Lemma each_of_broadcast {T} (N : Num T) (B : mat3 T) (o : vec3 T) (cs : list (vec3 T)) :
+  to_gcs_each N (map (fun c => (B, o, c)) cs) = to_gcs_all N B o cs /\
+  from_gcs_each N (map (fun c => (B, o, c)) cs) = from_gcs_all N B o cs.
+Proof.
+  unfold to_gcs_each, from_gcs_each, to_gcs_all, from_gcs_all. rewrite !map_map. split; apply map_ext; intros c; reflexivity.
+Qed.
